@@ -43,6 +43,17 @@ YOUR TASK: write TWO different changes to the library (src/ and/or include/), ea
   4. is different in mechanism from the ideas already used for this property in earlier rounds:
 {chr(10).join(earlier) if earlier else '  (none)'}
 
+The people whose checks you are testing use model-based and exhaustive small-scope testing under sanitizers: every
+sequence of operations over a handful of small objects, reference models, boundary arguments, allocation-failure
+injection, all interleavings of small thread scenarios.  So a bug that shows within a few operations on tiny objects
+with ordinary arguments WILL be found; do not bother with those.  Aim at what such testing tends to hold constant:
+a second, differently configured object of the same kind; an object that is re-used after clear/swap/move; values
+of callbacks (return values, priv pointers) other than the obvious ones; user data mutated between calls; element
+layouts (offsets, sizes, alignments) other than the usual; thresholds at 2^8, 2^16, 2^20 elements; the release
+(`-DNDEBUG -O2`) build versus the debug build; what the client's compiler sees in the public headers; exact
+documented return values and out-parameters of rarely used entry points; error paths that are only reachable in
+one state; operations on several objects in one call (swap, concat, share, slice) with unusual pairings.
+
 Think about interactions that a test author is unlikely to combine: operation X immediately after operation Y in
 state Z; the second use of an object after it was cleared/moved/swapped; an argument that is legal but unusual; a
 callback that does something the documentation allows; two objects configured differently; values just past a
